@@ -16,7 +16,7 @@ var Flavours = map[string]*Flavour{
 	"C16": {Prop: "C16", WCreate: 2, WMerge: 8, WRead: 1,
 		Policies: allPolicies, Nil: true, FieldOpts: true},
 	"C10": {Prop: "C10", WCreate: 2, WMerge: 6, WSet: 3, WSetChild: 1, WRemove: 2, WChild: 3, WRead: 1,
-		Policies: allPolicies, CfgSources: true, Nil: true},
+		Policies: allPolicies, CfgSources: true, Nil: true, FieldOpts: true},
 	// C14's slice of E1: histories that move elements, then reads that must fail and name the setting
 	"C14": {Prop: "C14", WCreate: 1, WMerge: 3, WSet: 3, WSetChild: 2, WRemove: 4, WChild: 2, WRead: 6, WIllegal: 2,
 		Policies: []model.Handling{model.HDefault, model.HAppend, model.HPrepend, model.HReplaceArr}, Nil: true, MoveBias: true, Meta: true},
